@@ -141,6 +141,7 @@ func init() {
 			{Name: "deep", Run: c05Deep},
 			{Name: "sequences", TShards: 2, Run: c05Sequences},
 			{Name: "long", TShards: 2, Run: c05Long},
+			{Name: "sizes", TShards: 6, Run: c05Sizes},
 		},
 	})
 }
@@ -376,5 +377,42 @@ func c05Long(c *Ctx) {
 			k.Count("long_names", 1)
 			k.Nontrivial(txt)
 		})
+	}
+}
+
+// c05Sizes sweeps name lengths densely around multiples of the usual buffer
+// sizes; names carry quotes so that escape pairs fall on every offset.
+func c05Sizes(c *Ctx) {
+	spans := [][2]int{{3950, 4200}}
+	if c.Thorough {
+		spans = [][2]int{{3900, 4250}, {8000, 8300}, {16200, 16500}, {65300, 65700}}
+	}
+	idx := int64(0)
+	for _, sp := range spans {
+		for l := sp[0]; l <= sp[1]; l++ {
+			c.Case(idx, func(k *K) {
+				r := k.Rand()
+				alpha := pick(r, []string{"abcdefghij", "abc '", "ab'", "a_ b"})
+				first := &newick.Node{Name: "r", Children: []*newick.Node{{Name: string(randSeq(r, []byte(alpha), l)), Distance: 1.5}, {Name: "x"}}}
+				second, nodes := randomTree(r, 1+r.IntN(5), r.IntN(4))
+				decorate(r, nodes)
+				k.Input("name_len", l)
+				k.Input("alphabet", alpha)
+				var text bytes.Buffer
+				var want []item
+				for _, root := range []*newick.Node{first, second} {
+					text.Write(newickWrite(k, root))
+					want = append(want, item{Key: treeKey(root)})
+				}
+				got, over := collect(codecByName("newick").seq(bytes.NewReader(text.Bytes())), 5)
+				if over || !sameTrace(got, want) {
+					k.Failf("roundtrip", "trees around a buffer-size boundary decoded differently:\n got  %.600s\n want %.600s", traceString(got), traceString(want))
+				}
+				k.Count("trees_roundtripped", 2)
+				k.Count("size_sweep_cases", 1)
+				k.Nontrivial([]byte(fmt.Sprint(l, alpha)), text.Bytes()[:min(64, text.Len())])
+			})
+			idx++
+		}
 	}
 }
